@@ -36,12 +36,30 @@ HARNESSES = [
     dict(name="meta_reader", file="meta_reader.c", label="proved",
          fp={"destroy": ["meta_reader_destroy", "c19_obj_destroy"],
              "copy": ["meta_reader_copy"], "read_at": "c19_unreachable_read_at", "do_block": "c19_unreachable_do_block"},
-         flags=LEAK, timeout=300, unwind=4),
+         flags=LEAK, timeout=300, unwind=2, weight=5),
     dict(name="data_reader", file="data_reader.c", label="bounded(block_size<=32)",
          fp={"destroy": ["data_reader_destroy", "c19_obj_destroy"],
              "copy": ["data_reader_copy", "c19_obj_copy"],
              "read_at": "c19_unreachable_read_at", "do_block": "c19_unreachable_do_block"},
-         flags=LEAK, timeout=300, unwind=33,
+         flags=LEAK, timeout=200, unwind=2,
          cases=[dict(id="db%d_fb%d" % (d, f), defines={"HAVE_DB": d, "HAVE_FB": f}, tier="quick")
                 for d in (0, 1) for f in (0, 1)]),
+    dict(name="xattr_reader", file="xattr_reader.c", label="bounded(id_blocks<=4)",
+         fp={"destroy": ["xattr_reader_destroy", "c19_obj_destroy"],
+             "copy": ["xattr_reader_copy", "c19_obj_copy"],
+             "read_at": "c19_unreachable_read_at", "do_block": "c19_unreachable_do_block"},
+         flags=LEAK, timeout=200, unwind=2,
+         cases=[dict(id="kv%d_id%d_nb%d" % (k, i, nb),
+                     defines={"HAVE_KV": k, "HAVE_ID": i, "NB": nb}, tier=t)
+                for (k, i, nb, t) in ((1, 1, 2, "quick"), (0, 0, 0, "quick"), (1, 1, 0, "quick"),
+                                      (1, 0, 1, "quick"), (0, 1, 1, "thorough"),
+                                      (1, 1, 4, "thorough"), (1, 1, 1, "thorough"))]),
+    dict(name="rbtree", file="rbtree.c", label="bounded(nodes<=3)",
+         fp={"key_compare": "cmp_stub"},
+         flags=LEAK, timeout=200, unwind=5,
+         cases=[dict(id="shape%d_%s" % (sh, cfg), tier=t,
+                     defines=dict({"SHAPE": sh}, **({"NO_CUSTOM_ALLOC": None} if cfg == "calloc" else {})))
+                for cfg in ("pool", "calloc")
+                for (sh, t) in ((0, "quick"), (1, "quick"), (2, "quick"), (3, "thorough"), (4, "quick"),
+                                (5, "thorough"), (6, "thorough"), (7, "thorough"), (8, "thorough"))]),
 ]
